@@ -329,6 +329,14 @@ func (l *Lexer) Next() (Tok, bool) {
 		return Tok{T: "ref", N: n, Pos: start}, true
 	case 'E':
 		return Tok{T: "err", Pos: start}, true
+	case 'H':
+		return Tok{T: "hdr", Pos: start}, true
+	case 'C':
+		return Tok{T: "call", Pos: start}, true
+	case 'R':
+		return Tok{T: "result", Pos: start}, true
+	case 'z':
+		return Tok{T: "end", Pos: start}, true
 	}
 	return l.bad(start, fmt.Sprintf("tag 0x%02x", c)), true
 }
